@@ -202,14 +202,20 @@ Proof.
     unfold note_lines. destruct (dropped C (last_opt tk) t); apply IH.
 Qed.
 
+Definition file_line (k : nat) : option string :=
+  match nth_error text k with
+  | Some l => Some l
+  | None => if Nat.eqb k (List.length text) then Some "" else None
+  end.
+
 Lemma get_all_file ns : (forall n, In n ns -> 1 <= n <= List.length text) ->
-  exists L, get_all (fun n => match n with O => None | S k => nth_error text k end) ns = Some L /\ real_lines ns L.
+  exists L, get_all (fun n => match n with O => None | S k => file_line k end) ns = Some L /\ real_lines ns L.
 Proof.
   induction ns as [|n ns IH]; intros H; cbn.
   - exists []. split; [reflexivity|constructor].
   - destruct IH as [L [HG HR]]; [intros; apply H; right; assumption|].
     destruct (H n (or_introl eq_refl)) as [H1 H2]. destruct n as [|k]; [lia|].
-    destruct (nth_error text k) as [l|] eqn:E; [|apply nth_error_None in E; lia].
+    unfold file_line at 1. destruct (nth_error text k) as [l|] eqn:E; [|apply nth_error_None in E; lia].
     rewrite HG. exists (l :: L). split; [reflexivity|]. constructor; [|exact HR].
     split; [lia|]. cbn. rewrite Nat.sub_0_r. exact E.
 Qed.
@@ -218,7 +224,7 @@ Theorem get_lines_path st ns : lines st = [] ->
   (forall n, In n ns -> 1 <= n <= List.length text) ->
   exists L, step C true text st (GetLines ns) = (st, OLines L) /\ real_lines ns L.
 Proof.
-  intros HE Hr. destruct (get_all_file ns Hr) as [L [HG HR]]. cbn [step]. rewrite HE, HG.
+  intros HE Hr. destruct (get_all_file ns Hr) as [L [HG HR]]. cbn [step]. rewrite HE. unfold file_line in HG. rewrite HG.
   exists L; split; [reflexivity|exact HR].
 Qed.
 
